@@ -158,6 +158,9 @@ type limitTest struct {
 	// ReachedSucc is the successor on which `field <= counter` (bound reached) holds.
 	ReachedSucc *ssa.BasicBlock
 	Exact       bool // the comparison is counter >= field / counter < field (not > / <=)
+	// Pred, if the test is made by a boolean helper of the package, is that call and PredVal its value on ReachedSucc.
+	Pred    *ssa.Call
+	PredVal bool
 }
 
 func limitTests(fn *ssa.Function, fields map[string]bool) []limitTest {
@@ -189,9 +192,9 @@ func limitTests(fn *ssa.Function, fields map[string]bool) []limitTest {
 							other = b.Succs[1]
 						}
 						if _, isC := ConstInt(g.Y); gx != nil && fields[gx.Name()] && !isC {
-							out = append(out, limitTest{If: iff, Field: gx.Name(), Counter: g.Y, Exact: g.Op == token.LEQ, ReachedSucc: su})
+							out = append(out, limitTest{If: iff, Field: gx.Name(), Counter: g.Y, Exact: g.Op == token.LEQ, ReachedSucc: su, Pred: cl, PredVal: val})
 						} else if _, isC := ConstInt(g.X); gy != nil && fields[gy.Name()] && !isC {
-							out = append(out, limitTest{If: iff, Field: gy.Name(), Counter: g.X, Exact: g.Op == token.LSS, ReachedSucc: other})
+							out = append(out, limitTest{If: iff, Field: gy.Name(), Counter: g.X, Exact: g.Op == token.LSS, ReachedSucc: other, Pred: cl, PredVal: !val})
 						}
 					}
 				}
@@ -656,6 +659,23 @@ func spinsAfter(fn *ssa.Function, lt limitTest) string {
 					return r
 				}
 				return 0
+			}
+		}
+		// the same side-effect-free helper asked again about the same values answers the same
+		if subj, pol := BoolSubject(cond); lt.Pred != nil {
+			if cl, isCall := subj.(*ssa.Call); isCall && cl.Call.StaticCallee() != nil && cl.Call.StaticCallee() == lt.Pred.Call.StaticCallee() && len(cl.Call.Args) == len(lt.Pred.Call.Args) && pureHelper(cl.Call.StaticCallee()) {
+				same := true
+				for i := range cl.Call.Args {
+					if !sameVal(cl.Call.Args[i], lt.Pred.Call.Args[i]) {
+						same = false
+					}
+				}
+				if same {
+					if lt.PredVal == pol {
+						return 1
+					}
+					return -1
+				}
 			}
 		}
 		t := CondFact(cond, true).Canon()
@@ -1349,4 +1369,20 @@ func isTupleWithError(cl *ssa.Call) bool {
 func isBasicType(t types.Type) bool {
 	_, ok := t.Underlying().(*types.Basic)
 	return ok
+}
+
+// pureHelper: the function only reads and computes (no stores, calls of builtin len/cap at most, no sends, no go/defer).
+func pureHelper(fn *ssa.Function) bool {
+	pure := len(fn.Blocks) > 0
+	EachInstr(fn, func(in ssa.Instruction) {
+		switch x := in.(type) {
+		case *ssa.Store, *ssa.MapUpdate, *ssa.Send, *ssa.Go, *ssa.Defer, *ssa.Select, *ssa.Panic:
+			pure = false
+		case *ssa.Call:
+			if b, ok := x.Call.Value.(*ssa.Builtin); !ok || (b.Name() != "len" && b.Name() != "cap") {
+				pure = false
+			}
+		}
+	})
+	return pure
 }
